@@ -101,7 +101,7 @@ func (c *c06) ProbeNames() []string {
 }
 
 func (c *c06) SweepPrefix(string, uint64) []uint64 { return nil }
-func (c *c06) SweepCount(string) uint64           { return 0 }
+func (c *c06) SweepCount(string) uint64            { return 0 }
 
 func (c *c06) Init(env *Env) error {
 	c.env = env
